@@ -124,7 +124,7 @@ fn gen_case(rng: &mut Rng, id: usize, maxunits: usize) -> Value {
     }
     let n = us.len();
     let shapes = [
-        "dag", "cycle", "nested", "tails_chords", "self_use", "lib_all", "swallow", "dense", "cycle", "tails_chords",
+        "dag", "cycle", "nested", "tails_chords", "self_use", "lib_all", "swallow", "dense", "cycle", "tails_chords", "dag", "dag",
     ];
     let shape = shapes[rng.below(shapes.len())];
     let swallow_pm = if shape == "swallow" { 250 } else { 15 };
